@@ -126,6 +126,8 @@ def search(ctx):
                           "observed": repr(r), "expected": repr(s), "oracle": "Spec.LegalKey.key_spec (extracted)",
                           "size": len(k) + len(p)})
             continue
+        if s == ("ok", b""):
+            continue        # an empty prefixed form is outside C20's quantifier (the classes reject it: C02); the helper passes it through
         if (allow, p) not in objs:
             objs[(allow, p)] = (Client(("h", 1), key_prefix=p, allow_unicode_keys=allow),
                                 PooledClient(("h", 1), key_prefix=p, allow_unicode_keys=allow),
